@@ -632,8 +632,22 @@ func (u *Unit) mapHeaps(mt *types.Map) (string, string) {
 	if _, ok := u.c.heapNames[hp]; !ok {
 		u.c.heapNames[hp] = fmt.Sprintf("(Array Int (Array %s Bool))", u.c.sortOf(mt.Key()))
 		u.c.heapNames[hv] = fmt.Sprintf("(Array Int (Array %s %s))", u.c.sortOf(mt.Key()), u.c.sortOf(mt.Elem()))
+		if _, isSlice := mt.Elem().Underlying().(*types.Slice); isSlice && !u.c.bv {
+			// ghost: lensum(m) = sum of len(m[k]) over the present keys k (kept by mapStore / mapDelete, 0 for a new map)
+			u.c.heapNames["HL_"+key] = "(Array Int Int)"
+		}
 	}
 	return hp, hv
+}
+
+// lensumHeap: the ghost heap holding lensum(m) for maps of type mt ("" when not tracked).
+func (u *Unit) lensumHeap(mt *types.Map) string {
+	u.mapHeaps(mt)
+	h := "HL_" + sanitize(heapTypeKey(mt))
+	if _, ok := u.c.heapNames[h]; ok {
+		return h
+	}
+	return ""
 }
 
 func (u *Unit) newMap(st *State, mt *types.Map) string {
@@ -642,6 +656,9 @@ func (u *Unit) newMap(st *State, mt *types.Map) string {
 	cur := u.heapRead(st, hp)
 	u.heapWrite(st, hp, fmt.Sprintf("(store %s %s ((as const (Array %s Bool)) false))", cur, r, u.c.sortOf(mt.Key())))
 	_ = hv
+	if hl := u.lensumHeap(mt); hl != "" {
+		u.heapWrite(st, hl, fmt.Sprintf("(store %s %s 0)", u.heapRead(st, hl), r))
+	}
 	return r
 }
 
@@ -663,6 +680,13 @@ func (u *Unit) mapLookupSpec(st *State, m, k Term, mt *types.Map) (Term, string)
 
 func (u *Unit) mapStore(st *State, m, k, v Term, mt *types.Map) {
 	hp, hv := u.mapHeaps(mt)
+	if hl := u.lensumHeap(mt); hl != "" {
+		old, present := u.mapLookupSpec(st, m, k, mt)
+		cl := u.heapRead(st, hl)
+		oldLen := ite(present, sLen(old.S), "0")
+		st.assume(fmt.Sprintf("(>= (select %s %s) %s)", cl, m.S, oldLen)) // the sum includes the list being replaced
+		u.heapWrite(st, hl, fmt.Sprintf("(store %s %s (- (+ (select %s %s) %s) %s))", cl, m.S, cl, m.S, sLen(v.S), oldLen))
+	}
 	cp := u.heapRead(st, hp)
 	cv := u.heapRead(st, hv)
 	u.heapWrite(st, hp, fmt.Sprintf("(store %s %s (store (select %s %s) %s true))", cp, m.S, cp, m.S, k.S))
@@ -671,6 +695,11 @@ func (u *Unit) mapStore(st *State, m, k, v Term, mt *types.Map) {
 
 func (u *Unit) mapDelete(st *State, m, k Term, mt *types.Map) {
 	hp, _ := u.mapHeaps(mt)
+	if hl := u.lensumHeap(mt); hl != "" {
+		old, present := u.mapLookupSpec(st, m, k, mt)
+		cl := u.heapRead(st, hl)
+		u.heapWrite(st, hl, fmt.Sprintf("(store %s %s (- (select %s %s) %s))", cl, m.S, cl, m.S, ite(present, sLen(old.S), "0")))
+	}
 	cp := u.heapRead(st, hp)
 	u.heapWrite(st, hp, fmt.Sprintf("(store %s %s (store (select %s %s) %s false))", cp, m.S, cp, m.S, k.S))
 }
